@@ -35,9 +35,9 @@ impl<'a> WireFormat<'a> for WKS<'a> {
     where
         Self: Sized,
     {
-        let address = u32::from_be_bytes(data[*position..*position + 4].try_into()?);
-        let protocol = data[*position + 4];
-        let bit_map = Cow::Borrowed(&data[*position + 5..]);
+        let address = u32::from_be_bytes(data.get(*position..*position + 4).ok_or(crate::SimpleDnsError::InsufficientData)?.try_into()?);
+        let protocol = *data.get(*position + 4).ok_or(crate::SimpleDnsError::InsufficientData)?;
+        let bit_map = Cow::Borrowed(data.get(*position + 5..).ok_or(crate::SimpleDnsError::InsufficientData)?);
 
         *position += 5 + bit_map.len();
 
